@@ -80,8 +80,12 @@ func (c13) Plan(tier string) []fw.Unit {
 	}
 	var us []fw.Unit
 	for _, ctx := range c13Contexts {
-		for s := 0; s < shards; s++ {
-			us = append(us, fw.Unit{Check: "C13", Kind: "like", Tier: tier, Spec: fw.Spec(c13Spec{ctx, s, shards, maxLen})})
+		ml, sh := maxLen, shards
+		if tier == "quick" && (ctx == "where" || ctx == "case") {
+			ml, sh = 4, 16 // a false start after '%' needs a literal of two characters: pattern and text of length 4
+		}
+		for s := 0; s < sh; s++ {
+			us = append(us, fw.Unit{Check: "C13", Kind: "like", Tier: tier, Spec: fw.Spec(c13Spec{ctx, s, sh, ml})})
 		}
 	}
 	us = append(us, fw.Unit{Check: "C13", Kind: "null", Tier: tier, Spec: fw.Spec(c13Spec{})})
@@ -315,7 +319,7 @@ func (c13) Describe(tier string) fw.Description {
 	return fw.Description{
 		Level: "model_checking",
 		Rule: "exhaustive product: all patterns of length <= n over {%,_,a,b,.} x all texts of length <= n over the same alphabet x 4 contexts (WHERE, CASE WHEN, SELECT x LIKE p, HAVING) evaluated by the real engine (EmitSync / CountingWindow(1)+HAVING) against an anchored-regexp reference (ref.Like); IS NULL / IS NOT NULL over present (incl. '', 0, false), NULL and missing columns and nested paths in WHERE, SELECT, CASE, HAVING and an AND combination; a case = (pattern,text,context); non-trivial = the reference says the text matches",
-		Bounds:      map[string]any{"max_len": map[string]int{"quick": 3, "thorough": 4}, "alphabet": c13Chars, "contexts": c13Contexts},
+		Bounds:      map[string]any{"max_len": map[string]any{"quick": "4 in WHERE and CASE, 3 in SELECT and HAVING", "thorough": 4}, "alphabet": c13Chars, "contexts": c13Contexts},
 		Assumptions: []string{"patterns and texts contain no quote characters", "LIKE over NULL/missing text is not asserted here"},
 	}
 }
